@@ -143,6 +143,81 @@ def edit(src, qual, how):
             else:
                 return None      # continuation line indented less: leave it
         lines[cand.lineno - 1:b1] = [ind + 'if not (%s):' % test_src[3:-1], ind + '    continue'] + ded
+    elif how in ('yoda', 'notin'):
+        # yoda: every single-line `X == CONST` / `X != CONST` of the function becomes `CONST == X`;
+        # notin: every single-line `A not in B` / `A is not B` becomes `not A in B` / `not A is B`
+        nested = [f2 for f2 in ast.walk(node) if f2 is not node and isinstance(f2, (ast.FunctionDef, ast.AsyncFunctionDef, ast.ClassDef))]
+        inner = {id(y) for f2 in nested for y in ast.walk(f2)}
+        cands = []
+        for x in ast.walk(node):
+            if id(x) in inner or not isinstance(x, ast.Compare) or len(x.ops) != 1 or x.lineno != x.end_lineno:
+                continue
+            l, r = x.left, x.comparators[0]
+            if how == 'yoda' and isinstance(x.ops[0], (ast.Eq, ast.NotEq)) and isinstance(r, ast.Constant) and not isinstance(l, ast.Constant) \
+                    and not isinstance(l, (ast.Compare, ast.BoolOp, ast.IfExp, ast.Lambda, ast.NamedExpr)):
+                cands.append(x)
+            if how == 'notin' and isinstance(x.ops[0], (ast.NotIn, ast.IsNot)):
+                cands.append(x)
+        # no nesting between candidates (edits would overlap)
+        cands = [x for x in cands if not any(y is not x and any(z is x for z in ast.walk(y)) for y in cands)]
+        if not cands:
+            return None
+        for x in sorted(cands, key=lambda x: (x.lineno, x.col_offset), reverse=True):
+            line = lines[x.lineno - 1].encode('utf-8')
+            l, r = x.left, x.comparators[0]
+            ltxt = line[l.col_offset:l.end_col_offset].decode()
+            rtxt = line[r.col_offset:r.end_col_offset].decode()
+            seg = line[x.col_offset:x.end_col_offset].decode()
+            if '(' in seg[:1] or seg.count('(') != seg.count(')'):      # parenthesised operands we cannot re-cut safely
+                continue
+            if how == 'yoda':
+                op = '==' if isinstance(x.ops[0], ast.Eq) else '!='
+                rep = '%s %s %s' % (rtxt, op, ltxt)
+            else:
+                op = 'in' if isinstance(x.ops[0], ast.NotIn) else 'is'
+                rep = '(not %s %s %s)' % (ltxt, op, rtxt)
+            lines[x.lineno - 1] = (line[:x.col_offset] + rep.encode() + line[x.end_col_offset:]).decode('utf-8')
+        if '\n'.join(lines) == src:
+            return None
+    elif how == 'retelse':
+        # `if C: ...; return A` followed (same block) by statements: wrap the rest of the block into `else:`
+        cand = None
+        nested = [f2 for f2 in ast.walk(node) if f2 is not node and isinstance(f2, (ast.FunctionDef, ast.AsyncFunctionDef, ast.ClassDef))]
+        inner = {id(y) for f2 in nested for y in ast.walk(f2)}
+        for blk_owner in ast.walk(node):
+            if id(blk_owner) in inner and blk_owner is not node:
+                continue
+            for field in ('body', 'orelse', 'finalbody'):
+                blk = getattr(blk_owner, field, None)
+                if not isinstance(blk, list) or len(blk) < 2:
+                    continue
+                for i, st in enumerate(blk[:-1]):
+                    if isinstance(st, ast.If) and not st.orelse and isinstance(st.body[-1], (ast.Return, ast.Raise)) \
+                            and st.body[0].lineno > st.lineno:
+                        rest = blk[i + 1:]
+                        cand = (st, rest)
+                        break
+                if cand:
+                    break
+            if cand:
+                break
+        if cand is None:
+            return None
+        st, rest = cand
+        head = lines[st.lineno - 1]
+        ind = head[:len(head) - len(head.lstrip())]
+        r0, r1 = st.body[-1].end_lineno, rest[-1].end_lineno
+        seg = lines[r0:r1]
+        if any(l.strip() and not l.startswith(ind) for l in seg):
+            return None
+        # multi-line strings inside the rest would be damaged by re-indenting
+        for x in rest:
+            for y in ast.walk(x):
+                if isinstance(y, ast.Constant) and isinstance(y.value, (str, bytes)) and y.lineno != y.end_lineno:
+                    return None
+                if isinstance(y, ast.JoinedStr) and y.lineno != y.end_lineno:
+                    return None
+        lines[r0:r1] = [ind + 'else:'] + [('    ' + l if l.strip() else l) for l in seg]
     elif how == 'tmpret':
         # `return EXPR` -> `_res = EXPR; return _res` for the LAST return of the function (single-line, own line)
         rets = [x for x in ast.walk(node) if isinstance(x, ast.Return) and x.value is not None and x.lineno == x.end_lineno
